@@ -73,6 +73,17 @@ class Check:
             self.bad(rule, key, file, line, what, expected, found, detail)
         return cond
 
+    def shape(self, rule, key, ok, bad, file=None, line=None, what="", expected=None, found=None):
+        """Three-valued verdict for rules that recognise a code shape: recognised-good -> held; recognised-bad -> violation;
+        anything else -> INCONCLUSIVE (a refactoring the checker does not understand is never reported as a violation)."""
+        if ok:
+            self.ok(rule, key, file, line)
+        elif bad:
+            self.bad(rule, key, file, line, what, expected, found)
+        else:
+            self.ok(rule, key + "/unrecognised-shape", file, line, nontrivial=False) if False else self.inconc(rule, f"{key}: unrecognised shape at {file}:{line}: {str(found)[:120]}")
+        return ok
+
     def inconc(self, rule, reason):
         self.inconclusive.append((rule, reason))
 
